@@ -49,7 +49,7 @@ type RaftGroup struct {
 	log           *log.Entry
 }
 
-func startRaftNode(id uint64, nodeIds []uint64, storage wal.WAL, logger *log.Entry) (etcdRaft.Node, error) {
+func startRaftNode(id uint64, address string, nodeIds []uint64, storage wal.WAL, logger *log.Entry) (etcdRaft.Node, error) {
 	raftConfig := &etcdRaft.Config{
 		ID:              id,
 		ElectionTick:    10,
@@ -70,7 +70,13 @@ func startRaftNode(id uint64, nodeIds []uint64, storage wal.WAL, logger *log.Ent
 	if len(nodeIds) > 0 && !hasState {
 		var peers []etcdRaft.Peer
 		for _, nodeId := range nodeIds {
-			peers = append(peers, etcdRaft.Peer{ID: nodeId})
+			peer := etcdRaft.Peer{ID: nodeId}
+			if nodeId == id && address != "" {
+				// Announce own address in the bootstrap membership entry. Members learn
+				// addresses from membership entries when they replay the log.
+				peer.Context = []byte(address)
+			}
+			peers = append(peers, peer)
 		}
 		return etcdRaft.StartNode(raftConfig, peers), nil
 	} else {
@@ -98,7 +104,13 @@ func NewRaftGroup(id uuid.UUID, nodeIds []uint64, storage wal.WAL, transport *Ra
 	})
 
 	ctx, ctxCancel := context.WithCancel(context.Background())
-	raftNode, err := startRaftNode(transport.NodeId(), nodeIds, storage, logger)
+	// Only the zero group announces addresses. Replicas of other groups bootstrap
+	// independently and have to create identical initial entries.
+	address := ""
+	if uuid.Equal(id, uuid.Nil) {
+		address = transport.Address()
+	}
+	raftNode, err := startRaftNode(transport.NodeId(), address, nodeIds, storage, logger)
 	if err != nil {
 		return nil, err
 	}
